@@ -1,4 +1,5 @@
 import TR.Lemmas.Fallback
+import TR.Lemmas.FallbackDrop
 /-!
 # C17 — fallback never replaces a success and handles exactly the errors it should
 
@@ -8,7 +9,9 @@ predicate mask, any static value), every request `(c, tag)`, every inner and bac
 every state of the value-function counter. The theorems about runs hold in addition for every
 list of operations of the poll-level machine: any number of requests, every order of arrivals,
 polls, cancellations and clock advances, every scripted latency/outcome (ok, error of any kind,
-panic, never) of the inner and of the backup service.
+panic, never) of the inner and of the backup service — and every point at which the caller drops
+the service, its clones and the layer (`Op.dropsvc`; `svc.oneshot(req)` is the case "right after
+the call was made").
 -/
 namespace TR.Props.C17
 open TR TR.Fallback
@@ -305,6 +308,49 @@ theorem backup_call_justified (cfg : Cfg) (ops : List Op) (c k2 : Nat) (rq : Req
           subst hrq
           exact key rq' n k out k2' _ hnx sub
 
+/-! ## the response future is self-contained: dropping the service handles changes no outcome -/
+
+/-- Dropping every handle on the service (the `Fallback`, its clones, the layer) after `pre` has
+exactly one effect: no further call can be made. Everything the calls made so far can observe or
+produce — the log with every inner call, predicate/strategy/backup call, response and result, the
+phases, the serial and value-function counters, the clock — is what it is in the run in which the
+handles are never dropped and the later arrivals simply do not happen. -/
+theorem dropsvc_only_stops_new_calls (cfg : Cfg) (pre post : List Op) :
+    flagless (run cfg (pre ++ .dropsvc :: post)) = flagless (run cfg (pre ++ post.filter (fun op => !op.isArrive))) :=
+  run_dropsvc cfg pre post
+
+/-- The outcome of a call is independent of **when** the service handles are dropped: moving the
+drop across any stretch `mid` of polls, cancellations, clock advances (anything but the making of
+a new call) — from before the first poll of a request to after its completion, across the
+completion of its inner call, across the backup call — leaves the whole log unchanged. -/
+theorem log_independent_of_dropsvc_time (cfg : Cfg) (pre mid post : List Op) (hmid : ∀ op ∈ mid, op.isArrive = false) :
+    (run cfg (pre ++ .dropsvc :: (mid ++ post))).log = (run cfg (pre ++ mid ++ .dropsvc :: post)).log := by
+  have h1 := run_dropsvc cfg pre (mid ++ post)
+  have h2 := run_dropsvc cfg (pre ++ mid) post
+  rw [List.filter_append, filter_noArrive_id mid hmid, ← List.append_assoc] at h1
+  rw [← flagless_log (run cfg (pre ++ .dropsvc :: (mid ++ post))), h1, ← h2, flagless_log]
+
+/-- … and of **whether** they are dropped at all, as long as no new call is attempted afterwards. -/
+theorem log_independent_of_dropsvc (cfg : Cfg) (pre post : List Op) (hpost : ∀ op ∈ post, op.isArrive = false) :
+    (run cfg (pre ++ .dropsvc :: post)).log = (run cfg (pre ++ post)).log := by
+  have h := run_dropsvc cfg pre post
+  rw [filter_noArrive_id post hpost] at h
+  rw [← flagless_log (run cfg (pre ++ .dropsvc :: post)), h, flagless_log]
+
+/-- In particular the result delivered for a request, and every event about it, is the same
+whether the handles were dropped before its inner call completed or are still alive. -/
+theorem result_independent_of_dropsvc (cfg : Cfg) (pre post : List Op) (hpost : ∀ op ∈ post, op.isArrive = false)
+    (c : Nat) (o : Outcome) :
+    (FEv.result c o ∈ (run cfg (pre ++ .dropsvc :: post)).log ↔ FEv.result c o ∈ (run cfg (pre ++ post)).log) ∧
+    evsOf c (run cfg (pre ++ .dropsvc :: post)).log = evsOf c (run cfg (pre ++ post)).log := by
+  rw [log_independent_of_dropsvc cfg pre post hpost]
+  exact ⟨Iff.rfl, rfl⟩
+
+/-- A call attempted after the handles are gone does not exist: no event is ever about it. -/
+theorem no_call_after_dropsvc (cfg : Cfg) (pre post : List Op) (c : Nat)
+    (hc : known (run cfg pre) c = false) : evsOf c (run cfg (pre ++ .dropsvc :: post)).log = [] :=
+  (unknown_after_dropsvc cfg pre post c (by simpa [known] using hc)).2
+
 /-! ## non-vacuity -/
 
 /-- The grid is inhabited in every corner: with predicate "kind 1 only" the backup strategy
@@ -331,6 +377,28 @@ example :
     FEv.result 1 (.ok ⟨0, 1, 11⟩) ∈ (run cfg ops).log ∧
     FEv.result 3 (.inner ⟨2, 2⟩) ∈ (run cfg ops).log ∧
     FEv.backupDrop 4 4 ∈ (run cfg ops).log := by
+  decide
+
+/-- The handles are dropped in every phase — before request 1 was polled, while the inner call of
+request 2 and the backup call of request 3 are pending, after request 4 completed: each request
+gets exactly what the strategy specifies, … -/
+example :
+    let cfg : Cfg := { strat := .service, handle := some 2, val := 700 }
+    let ops := [Op.arrive 1 11 [⟨0, .err 1⟩, ⟨0, .ok⟩], .arrive 2 12 [⟨5, .err 1⟩, ⟨0, .err 3⟩],
+                .arrive 3 13 [⟨0, .err 1⟩, ⟨5, .ok⟩], .arrive 4 14 [⟨0, .err 2⟩], .poll 2, .poll 3, .poll 4,
+                .dropsvc, .poll 1, .adv 5, .poll 2, .poll 3]
+    FEv.result 1 (.ok ⟨5, 1, 11⟩) ∈ (run cfg ops).log ∧
+    FEv.result 2 (.failed ⟨3, 6⟩) ∈ (run cfg ops).log ∧
+    FEv.result 3 (.ok ⟨2, 3, 13⟩) ∈ (run cfg ops).log ∧
+    FEv.result 4 (.inner ⟨2, 3⟩) ∈ (run cfg ops).log := by
+  decide
+
+/-- … and a request attempted after the drop never exists (it does when the handles are kept). -/
+example :
+    let cfg : Cfg := { strat := .value, handle := none, val := 700 }
+    evsOf 2 (run cfg [.arrive 1 11 [⟨0, .err 1⟩], .dropsvc, .arrive 2 12 [⟨0, .ok⟩], .poll 1, .poll 2]).log = [] ∧
+    FEv.result 1 (.ok ⟨700, 0, 0⟩) ∈ (run cfg [.arrive 1 11 [⟨0, .err 1⟩], .dropsvc, .arrive 2 12 [⟨0, .ok⟩], .poll 1, .poll 2]).log ∧
+    FEv.result 2 (.ok ⟨1, 2, 12⟩) ∈ (run cfg [.arrive 1 11 [⟨0, .err 1⟩], .arrive 2 12 [⟨0, .ok⟩], .poll 1, .poll 2]).log := by
   decide
 
 end TR.Props.C17
